@@ -73,7 +73,7 @@ def k7_part(ctx: vlib.Ctx):
             "Fixpoint leq (a b: list aidx) : bool := match a, b with [], [] => true | x :: r, y :: s => aidx_eqb x y && leq r s | _, _ => false end.\n")
     okf = "fun c => match arg_indexes (fst c), snd c with Some a, Some b => leq a b | None, None => true | _, _ => false end"
     bad, log = vlib.coq_bad_idx("c03_k7", "TupleIdx", "From VerifGen Require Import K7.", defs, cases, okf,
-                                "list bool * option (list aidx)", shard=1500, needs=["gen/K7.vo", "theories/TupleIdx.vo"])
+                                "list bool * option (list aidx)", shard=1500, timeout=tycorr.CORR_TIMEOUT, needs=["gen/K7.vo", "theories/TupleIdx.vo"])
     if bad is None:
         ctx.correspondence("K7-translation-vs-source-loop", len(cases), -1, log)
         ctx.not_shown("translation validation K7", log)
@@ -83,7 +83,110 @@ def k7_part(ctx: vlib.Ctx):
             ctx.not_shown("translation validation K7", str([flagsets[i] for i in bad[:5]]))
 
 
-def probe(ctx, t, fam, ns, dec, d, nontrivial):
+def k45_part(ctx: vlib.Ctx, validate: bool = False):
+    """kernel K45 (emission of unpack_named_tuple): theorems + validation of the translation against the code the real
+    generator produces for random NamedTuple classes in both forms (helper text captured at its exec, direct call read from
+    the decoder's source)"""
+    import builtins
+    import re
+    import mashumaro.core.meta.code.builder as _builder
+    import mashumaro.core.meta.types.unpack as _unpack
+    from mashumaro.codecs.basic import BasicDecoder
+    from mashumaro.dialect import Dialect
+    if not validate:
+        ctx.theorems("props/C03_ntdict_kernel.vo", ["C03_named_code_is_model", "C03_ntdict_code_is_model"], kernels=["K45"])
+        ctx.trusted += ["tools/kernels/k45_namedtuple_emit.py (translator of the emission part of unpack_named_tuple: statement texts compared exactly, branch structure read "
+                    "from the AST; validated each run against the code generated for random NamedTuple classes); NtEmit.v run_code = semantics of the emitted statements"]
+        return
+    if not ctx.kernel_report.get("K45", {}).get("ok"):
+        return
+    rng = ctx.rng
+    cases, info = [], []
+    for i in range(ctx.budget(40, 300)):
+        n = rng.randrange(1, 6)
+        ndef = rng.choice([0, 0, 1, 2, n])
+        names = [f"f{j}" for j in range(n)]
+        ndef = min(ndef, n)
+        defaulted = names[n - ndef:]
+        src = "from typing import NamedTuple\nclass N(NamedTuple):\n" + "".join(
+            f"    {nm}: int" + (" = 0" if nm in defaulted else "") + "\n" for nm in names)
+        ns = gen.build_module(src)
+        as_dict = rng.random() < 0.5
+        dia = type("D", (Dialect,), {"namedtuple_as_dict": as_dict})
+        got = {"helper": None, "main": None}
+
+        def rec(code, g=None, l=None):
+            if isinstance(code, str):
+                if "def __unpack_named_tuple_" in code:
+                    got["helper"] = code
+                else:
+                    got["main"] = code
+            return builtins.exec(code, g, l)
+        olds = (_unpack.__dict__.get("exec"), _builder.__dict__.get("exec"))
+        _unpack.exec = _builder.exec = rec
+        try:
+            BasicDecoder(ns["N"], default_dialect=dia)
+        except Exception as e:
+            ctx.not_shown("kernel K45 validation", f"{src}: {type(e).__name__}: {e}"[:300])
+            continue
+        finally:
+            for m_, o_ in ((_unpack, olds[0]), (_builder, olds[1])):
+                if o_ is None:
+                    del m_.exec
+                else:
+                    m_.exec = o_
+        text = (got["helper"] or "") + "\n" + (got["main"] or "")
+        # subscripts of the item unpackers, in order of appearance
+        subs = re.findall(r"value\[('(?:f\d+)'|\d+)\]", got["helper"] or got["main"] or "")
+        idx = "[" + "; ".join(f"IName {vlib.coq_str(x[1:-1])}" if x.startswith("'") else f"IPos {int(x)}" for x in subs) + "]"
+        if got["helper"]:
+            lines = [x.strip() for x in got["helper"].splitlines()]
+            body = []
+            pend = None
+            for ln in lines:
+                m1 = re.match(r"if '(f\d+)' in value:$", ln)
+                m2 = re.match(r"fields\['(f\d+)'\] = ", ln)
+                if m1:
+                    pend = m1.group(1)
+                elif m2:
+                    body.append(f"NLSetIf {vlib.coq_str(m2.group(1))}" if pend == m2.group(1) else f"NLSet {vlib.coq_str(m2.group(1))}")
+                    pend = None
+                elif ln.startswith("fields.append("):
+                    body.append("NLAppend")
+            if "fields = {}" in lines and any(x.startswith("return") and "(**fields)" in x for x in lines):
+                code = "NCKw [" + "; ".join(body) + "]"
+            elif ("fields = []" in lines and "try:" in lines and "except IndexError:" in lines and "if len(fields) < len(value):" in lines
+                  and "raise" in lines and any(x.startswith("return") and "(*fields)" in x for x in lines)):
+                code = "NCTry [" + "; ".join(body) + "]"
+            else:
+                code = "NCKw []"        # unrecognised: will not match
+        else:
+            code = "NCCall"
+        nm = "[" + "; ".join(vlib.coq_str(x) for x in names) + "]"
+        df = "[" + "; ".join(vlib.coq_str(x) for x in defaulted) + "]"
+        cases.append(f"((({'true' if as_dict else 'false'}, {nm}), {df}), ({idx}, {code}))")
+        info.append((as_dict, names, defaulted, idx, code))
+        ctx.count(("k45", as_dict, n, ndef))
+        gen.dispose_module(ns) if hasattr(gen, "dispose_module") else None
+    defs = ("Definition idx_eqb (a b: nt_idx) : bool := match a, b with IName x, IName y => String.eqb x y | IPos x, IPos y => Nat.eqb x y | _, _ => false end.\n"
+            "Definition line_eqb (a b: nt_line) : bool := match a, b with NLSet x, NLSet y | NLSetIf x, NLSetIf y => String.eqb x y | NLAppend, NLAppend => true | _, _ => false end.\n"
+            "Fixpoint leqb {A} (e: A -> A -> bool) (a b: list A) : bool := match a, b with [], [] => true | x :: r, y :: s => e x y && leqb e r s | _, _ => false end.\n"
+            "Definition code_eqb (a b: nt_code) : bool := match a, b with NCCall, NCCall => true | NCKw x, NCKw y | NCTry x, NCTry y => leqb line_eqb x y | _, _ => false end.\n")
+    okf = ("fun c => match c with (((ad, names), dfl), (ix, code)) => "
+           "leqb idx_eqb (k45_indices ad names) ix && "
+           "code_eqb (k45_code ad (match dfl with [] => true | _ => false end) (fun n => str_mem n dfl) names) code end")
+    bad, log = vlib.coq_bad_idx("c03_k45", "Core TyModel NtEmit", "From VerifGen Require Import K45.", defs, cases, okf,
+                                "((bool * list string) * list string) * (list nt_idx * nt_code)", shard=400, timeout=tycorr.CORR_TIMEOUT, needs=["gen/K45.vo", "theories/NtEmit.vo"])
+    if bad is None:
+        ctx.correspondence("K45-translation-vs-generated-source", len(cases), -1, log)
+        ctx.not_shown("translation validation K45", log)
+    else:
+        ctx.correspondence("K45-translation-vs-generated-source", len(cases), len(bad), str([info[i] for i in bad[:4]])[:600])
+        if bad:
+            ctx.not_shown("translation validation K45", str([info[i] for i in bad[:4]])[:600])
+
+
+def probe(ctx, t, fam, ns, dec, d, nontrivial, entry="codec_decode"):
     ctx.count((t.key(), repr(d)), nontrivial=nontrivial)
     d0 = copy.deepcopy(d)
     try:
@@ -107,7 +210,7 @@ def probe(ctx, t, fam, ns, dec, d, nontrivial):
     ctx.hist("oracle_outcomes", got[0] + "/" + exp[0])
     if what:
         ctx.fail(f"{gen.py_ann(t)} <- {gen.py_src(d0)[:160]}: {what}",
-                 {"entry": "codec_decode", "source": fam.source(), "type": gen.py_ann(t), "input_src": gen.py_src(d0),
+                 {"entry": entry, "source": fam.source(), "type": gen.py_ann(t), "input_src": gen.py_src(d0),
                   "observed": ("ok:" + gen.py_src(got[1])) if got[0] == "ok" else "exc:" + got[1],
                   "expected": ("ok:" + gen.py_src(exp[1])) if exp[0] == "ok" else "exc:*"},
                  {"kind": "unpacked-tuple-short-input"} if (got[0] == "ok" and exp[0] != "ok" and "too few items" in exp[1]
@@ -186,6 +289,36 @@ def indexed_part(ctx):
         fam.dispose()
 
 
+def as_dict_part(ctx):
+    """the namedtuple_as_dict form (dialect option, or Config option of a holder dataclass): items are looked up by field name, a missing key is legal exactly for a field with a
+    default (which it then takes), surplus keys are ignored; inputs = encoder output, every single key removed / one surplus key at every
+    nested dict, every nested list cut short.  Guards the fix 28df7ca (defaults never applied in this form)."""
+    from mashumaro.codecs.basic import BasicDecoder, BasicEncoder
+    rng = ctx.rng
+    ref.NT_AS_DICT = True
+    try:
+        for fam, ns, t, ty, dia in tyoracle.as_dict_stream(rng, ctx.budget(50, 300)):
+            try:
+                kw = {"default_dialect": dia} if dia else {}
+                entry = "codec_decode_as_dict" if dia else "codec_decode"
+                dec, enc = BasicDecoder(ty, **kw), BasicEncoder(ty, **kw)
+            except Exception as e:
+                ctx.fail(f"as_dict codec for {gen.py_ann(t)} cannot be built: {type(e).__name__}: {e}",
+                         {"entry": "codec_build", "source": fam.source(), "type": gen.py_ann(t), "expected": "ok"}, {"kind": "decoder-build"})
+                continue
+            vg = gen.ValueGen(rng, fam)
+            try:
+                w = enc.encode(vg.value(t))
+            except Exception:
+                continue
+            ctx.hist("as_dict_root", t.kind if dia else "config")
+            probe(ctx, t, fam, ns, dec, w, False, entry=entry)
+            for d in tyoracle.key_removals(w) + truncations(w, 6):
+                probe(ctx, t, fam, ns, dec, d, True, entry=entry)
+    finally:
+        ref.NT_AS_DICT = False
+
+
 def run(ctx: vlib.Ctx):
     from mashumaro.codecs.basic import BasicDecoder, BasicEncoder
 
@@ -205,10 +338,20 @@ def run(ctx: vlib.Ctx):
                         "inputs with one nested sequence cut short and every prefix of an unpacked-tuple input); constant positions are recursive (fixed tuples of constants, "
                         "default-less NamedTuples of constants); nested Unpack / TypeVarTuple segments are oracle only; sequence-like "
                         "inputs of a NamedTuple/fixed tuple other than list/tuple/str (bytes, dicts with integer keys, NamedTuple instances) are not modelled; "
-                        "namedtuple_as_dict and generic NamedTuples/TypedDicts are oracle only"]
+                        "the as_dict form of a NamedTuple class at the top of a codec (class-specific serialization strategy; option namedtuple_as_dict when the items reach no other NamedTuple) is modelled "
+                        "in TyNtDict.v: lookup by field name on every input kind, 'in' tests of defaulted fields, constant positions (C03_ntdict_unpack_ref on every input, C03_ntdict_well_typed, correspondence "
+                        "incl. every key removed / surplus key / non-dict inputs); as_dict NamedTuples at nested positions / in holder dataclasses under the global option (reference by field name in ref.py) "
+                        "and generic NamedTuples/TypedDicts are oracle only"]
 
+    ctx.theorems("props/C03_ntdict.vo", ["C03_ntdict_unpack_ref", "C03_ntdict_strict_or_same", "C03_ntdict_unpack_ref_partial", "C03_ntdict_well_typed", "C03_ntdict_missing_key"])
     k7_part(ctx)
-    ctx.coqchk(["VerifProps.C03_unpack", "VerifProps.C03_tuple_kernel"])
+    k45_part(ctx)
+    ctx.theorems("props/C03_typed_kernel.vo", ["C03_typed_code_is_model"], kernels=["K45a"])
+    ctx.trusted += ["tools/kernels/k45a_typeddict_emit.py (translator of the emission loops of pack_typed_dict / unpack_typed_dict; sorted(S, key=all_keys.index) rendered as "
+                    "filter; validated each run against the helpers generated for random TypedDict classes); TdEmit.v run_td_lines = semantics of the emitted statements"]
+    ctx.theorems("props/C03_typevar.vo", ["C03_optional_code_is_model", "C03_typevar_code_is_model", "C03_typevar_unpack_ref"], kernels=["K45c"])
+    ctx.trusted += ["tools/kernels/k45c_optional_typevar.py (head of unpack_special_typing_primitive + expr_or_maybe_none: exact-shape check, tests abstracted to booleans)"]
+    ctx.coqchk(["VerifProps.C03_unpack", "VerifProps.C03_tuple_kernel", "VerifProps.C03_ntdict", "VerifProps.C03_ntdict_kernel", "VerifProps.C03_typed_kernel", "VerifProps.C03_typevar"])
     cases, bad, log = tycorr.run(ctx, "c03_ty", ctx.budget(60, 400), 2, depth=3, foreign=4)
     hits = tyoracle.report_corr(ctx, "TyModel.uk/ref_dec vs BasicDecoder.decode", cases, bad, log, want="dec")
 
@@ -233,14 +376,27 @@ def run(ctx: vlib.Ctx):
                 probe(ctx, t, fam, ns, dec, d, j > 0)
         fam.dispose()
     indexed_part(ctx)
+    as_dict_part(ctx)
+    # round-6 parts last: the random streams of the parts above stay what they were for every seed
+    k45_part(ctx, validate=True)
+    tycorr.k45a_validate(ctx, "unpack")
+    ncases, nbad, nlog = tycorr.run_nd(ctx, "c03_nd", ctx.budget(20, 150), foreign=3)
+    tyoracle.report_corr(ctx, "TyNtDict.uk_nd/ref_dec_nd vs BasicDecoder.decode under an as_dict dialect", ncases, nbad, nlog, want="dec")
+    from harness.props import c01 as _c01
+    _c01.tv_part(ctx, "c03_tv", "dec", ctx.budget(15, 120))
 
 
 def replay(rep: dict) -> int:
     if rep.get("expected") == "exc:*":
         ns = gen.build_module(rep["source"])
         from mashumaro.codecs.basic import BasicDecoder
+        from mashumaro.dialect import Dialect
+
+        class AsDict(Dialect):
+            namedtuple_as_dict = True
+        kw = {"default_dialect": AsDict} if rep.get("entry") == "codec_decode_as_dict" else {}
         try:
-            got = BasicDecoder(eval(rep["type"], dict(ns))).decode(eval(rep["input_src"], dict(ns)))
+            got = BasicDecoder(eval(rep["type"], dict(ns)), **kw).decode(eval(rep["input_src"], dict(ns)))
             print("REPRODUCED: returned", gen.py_src(got), "where the reference is undefined")
             return 1
         except Exception as e:
